@@ -1,5 +1,10 @@
-/- TEMPORARY STUB (Lean Float based) — to be replaced by the exact Nat/Int implementation. -/
 import Jqawk.Model.Bytes
+/-
+  IEEE-754 binary64 arithmetic and Go's strconv float formatting / parsing, defined with exact
+  Nat/Int arithmetic on the bit pattern only (no `Float`), so every definition reduces in the kernel.
+  Differentially tested against go1.23 (see Main.lean, gen/main.go, run_tests.sh).
+  The only known difference from Go is documented at `goParseExact` (a Go bug for > 800-digit integers).
+-/
 
 namespace Jqawk
 
@@ -8,64 +13,459 @@ structure F64 where
   deriving DecidableEq, Repr, Inhabited
 
 namespace F64
+
 def ofBits (b : UInt64) : F64 := ⟨b⟩
-def toF (x : F64) : Float := Float.ofBits x.bits
-def ofF (f : Float) : F64 := ⟨f.toBits⟩
-def isNaN (x : F64) : Bool := x.toF.isNaN
-def isInf (x : F64) : Bool := x.toF.isInf
-def isZero (x : F64) : Bool := x.toF == 0.0
-def signBit (x : F64) : Bool := (x.bits >>> 63) != 0
+
+/-! ## Bit-level view: sign (1) | biased exponent (11) | fraction (52) -/
+
+def raw (x : F64) : Nat := x.bits.toNat
+/-- the bit pattern without the sign bit; it orders non-NaN magnitudes -/
+def mag (x : F64) : Nat := x.raw % 2^63
+def expBits (x : F64) : Nat := x.mag / 2^52
+def fracBits (x : F64) : Nat := x.raw % 2^52
+def signBit (x : F64) : Bool := decide (x.raw ≥ 2^63)
+/-- magnitude bits of +Inf -/
+def infMag : Nat := 0x7FF0000000000000
+def isNaN (x : F64) : Bool := decide (x.mag > infMag)
+def isInf (x : F64) : Bool := x.mag == infMag
+def isZero (x : F64) : Bool := x.mag == 0
+def ofMag (neg : Bool) (m : Nat) : F64 := ⟨UInt64.ofNat (if neg then 2^63 + m else m)⟩
 def nan : F64 := ⟨0x7FF8000000000001⟩
 def zero : F64 := ⟨0⟩
-def one : F64 := ofF 1.0
-def neg (x : F64) : F64 := ⟨x.bits ^^^ 0x8000000000000000⟩
-def add (x y : F64) : F64 := ofF (x.toF + y.toF)
-def sub (x y : F64) : F64 := ofF (x.toF - y.toF)
-def mul (x y : F64) : F64 := ofF (x.toF * y.toF)
-def div (x y : F64) : F64 := ofF (x.toF / y.toF)
-def lt (x y : F64) : Bool := x.toF < y.toF
-def le (x y : F64) : Bool := x.toF ≤ y.toF
-def eq (x y : F64) : Bool := x.toF == y.toF
-def ofInt (n : Int) : F64 := ofF (Float.ofInt n)
-def ofNat (n : Nat) : F64 := ofF (Float.ofNat n)
+def one : F64 := ⟨0x3FF0000000000000⟩
+def inf (neg : Bool) : F64 := ofMag neg infMag
+def neg (x : F64) : F64 := ofMag (!x.signBit) x.mag
+/-- for finite `x`: |x| = mant · 2^exp -/
+def mant (x : F64) : Nat := if x.expBits == 0 then x.fracBits else x.fracBits + 2^52
+def exp (x : F64) : Int := if x.expBits == 0 then -1074 else (x.expBits : Int) - 1075
+
+/-! ## Correct rounding of an exact rational to binary64 -/
+
+/-- the fraction num/den · 2^k -/
+def scale2 (num den : Nat) (k : Int) : Nat × Nat :=
+  if k ≥ 0 then (num * 2^k.toNat, den) else (num, den * 2^(-k).toNat)
+
+/-- n/d rounded to the nearest integer, ties to even -/
+def rne (n d : Nat) : Nat :=
+  let q := n / d
+  let r := n % d
+  if 2 * r > d || (2 * r == d && q % 2 == 1) then q + 1 else q
+
+/-- Magnitude bits of the double nearest (ties to even) to num/den · 2^exp2 (den > 0).
+    Handles subnormals; overflow gives `infMag`. -/
+def roundMag (num den : Nat) (exp2 : Int) : Nat :=
+  if num == 0 then 0 else
+  let e0 : Int := (num.log2 : Int) - den.log2 + exp2        -- 2^(e0-1) < value < 2^(e0+1)
+  if e0 > 1025 then infMag else if e0 < -1077 then 0 else
+  let (n, d) := scale2 num den (exp2 - e0)
+  let e := if n ≥ d then e0 else e0 - 1                       -- 2^e ≤ value < 2^(e+1)
+  let q := max (e - 52) (-1074)                               -- exponent of the unit in the last place
+  let (n, d) := scale2 num den (exp2 - q)
+  -- m = rne n d ≤ 2^53; a carry into bit 52/53 moves into the exponent field by itself
+  min infMag ((q + 1074).toNat * 2^52 + rne n d)
+
+def ofRat (neg : Bool) (num den : Nat) (exp2 : Int) : F64 := ofMag neg (roundMag num den exp2)
+
+/-! ## Arithmetic (round to nearest even), comparisons, conversions -/
+
+def add (x y : F64) : F64 :=
+  if x.isNaN || y.isNaN then nan
+  else if x.isInf then (if y.isInf && x.signBit != y.signBit then nan else x)
+  else if y.isInf then y
+  else
+    let e := min x.exp y.exp
+    let signed (z : F64) : Int :=
+      let m : Int := (z.mant * 2^(z.exp - e).toNat : Nat)
+      if z.signBit then -m else m
+    let s := signed x + signed y
+    if s == 0 then ofMag (x.signBit && y.signBit) 0             -- exact zero sum is +0 unless (-0)+(-0)
+    else ofRat (decide (s < 0)) s.natAbs 1 e
+
+def sub (x y : F64) : F64 := add x (neg y)
+
+def mul (x y : F64) : F64 :=
+  let s := x.signBit != y.signBit
+  if x.isNaN || y.isNaN then nan
+  else if x.isInf || y.isInf then (if x.isZero || y.isZero then nan else inf s)
+  else ofRat s (x.mant * y.mant) 1 (x.exp + y.exp)
+
+def div (x y : F64) : F64 :=
+  let s := x.signBit != y.signBit
+  if x.isNaN || y.isNaN then nan
+  else if x.isInf then (if y.isInf then nan else inf s)
+  else if y.isInf then ofMag s 0
+  else if y.isZero then (if x.isZero then nan else inf s)
+  else ofRat s x.mant y.mant (x.exp - y.exp)
+
+/-- order-preserving integer key of a non-NaN value (both zeros map to 0) -/
+def key (x : F64) : Int := if x.signBit then -(x.mag : Int) else x.mag
+def lt (x y : F64) : Bool := !(x.isNaN || y.isNaN) && decide (x.key < y.key)
+def le (x y : F64) : Bool := !(x.isNaN || y.isNaN) && decide (x.key ≤ y.key)
+def eq (x y : F64) : Bool := !(x.isNaN || y.isNaN) && x.key == y.key
+
+def ofNat (n : Nat) : F64 := ofRat false n 1 0
+def ofInt (n : Int) : F64 := ofRat (decide (n < 0)) n.natAbs 1 0
+
+/-- Go `int(x)` on amd64 (CVTTSD2SQ): truncate; NaN, ±Inf and out-of-range give -2^63 -/
 def toGoInt (x : F64) : Int :=
-  let f := x.toF
-  if f.isNaN || f.isInf || f ≥ 9223372036854775808.0 || f < -9223372036854775808.0 then -9223372036854775808
-  else f.toInt64.toInt
-def floor (x : F64) : F64 := ofF x.toF.floor
-def ceil (x : F64) : F64 := ofF x.toF.ceil
-def round (x : F64) : F64 := ofF x.toF.round
+  let lim : Int := (2^63 : Nat)
+  if x.isNaN || x.isInf then -lim else
+  let (n, d) := scale2 x.mant 1 x.exp
+  let t : Int := if x.signBit then -((n / d : Nat) : Int) else (n / d : Nat)
+  if -lim ≤ t && t < lim then t else -lim
+
+/-- rounds |x| = i + r/d (0 ≤ r < d) to the integer chosen by `pick`, keeping the sign bit -/
+def roundWith (pick : (i r d : Nat) → Nat) (x : F64) : F64 :=
+  if x.isNaN || x.isInf || x.exp ≥ 0 then x else
+  let d := 2^(-x.exp).toNat
+  ofRat x.signBit (pick (x.mant / d) (x.mant % d) d) 1 0
+
+/-- math.Floor / math.Ceil / math.Round (half away from zero); ±0, ±Inf, NaN unchanged -/
+def floor (x : F64) : F64 := roundWith (fun i r _ => if x.signBit && r != 0 then i + 1 else i) x
+def ceil (x : F64) : F64 := roundWith (fun i r _ => if !x.signBit && r != 0 then i + 1 else i) x
+def round (x : F64) : F64 := roundWith (fun i r d => if 2 * r ≥ d then i + 1 else i) x
+
+/-! ## Shortest decimal digits: strconv/decimal.go and `roundShortest` of strconv/ftoa.go -/
+
+/-- decimal digits of n, most significant first (`[0]` for 0) -/
+def digits (n : Nat) : List Nat :=
+  let rec go : Nat → Nat → List Nat → List Nat
+    | 0, _, acc => acc
+    | f+1, n, acc => if n < 10 then n :: acc else go f (n / 10) (n % 10 :: acc)
+  go (n.log2 + 1) n []
+
+/-- strconv `decimal`: value = 0.d₀d₁d₂… × 10^dp -/
+structure Dec where
+  d  : Array Nat
+  dp : Int
+
+/-- exact decimal expansion of mant · 2^exp (`decimal.Assign` + `Shift`) -/
+def decOf (mant : Nat) (exp : Int) : Dec :=
+  if exp ≥ 0 then
+    let ds := digits (mant * 2 ^ exp.toNat)
+    { d := ds.toArray, dp := ds.length }
+  else
+    let k := (-exp).toNat
+    let ds := digits (mant * 5 ^ k)                      -- mant / 2^k = mant · 5^k / 10^k
+    { d := ds.toArray, dp := (ds.length : Int) - k }
+
+/-- strconv `trim`: drop trailing zeros -/
+def Dec.trim (a : Dec) : Dec :=
+  let rec go (d : Array Nat) : Nat → Array Nat
+    | 0 => d
+    | f+1 => if d.size > 0 && d.back! == 0 then go d.pop f else d
+  let d := go a.d a.d.size
+  if d.size == 0 then { d := d, dp := 0 } else { d := d, dp := a.dp }
+
+/-- strconv `shouldRoundUp` (the decimals here are never truncated) -/
+def shouldRoundUp (a : Dec) (nd : Nat) : Bool :=
+  if nd ≥ a.d.size then false
+  else if a.d[nd]! == 5 && nd + 1 == a.d.size then nd > 0 && a.d[nd-1]! % 2 != 0   -- halfway: to even
+  else a.d[nd]! ≥ 5
+
+/-- strconv `decimal.RoundDown` -/
+def roundDown (a : Dec) (nd : Nat) : Dec :=
+  if nd ≥ a.d.size then a else Dec.trim { a with d := a.d.extract 0 nd }
+
+/-- strconv `decimal.RoundUp` -/
+def roundUp (a : Dec) (nd : Nat) : Dec :=
+  if nd ≥ a.d.size then a else
+  let rec go (d : Array Nat) : Nat → Option (Array Nat)
+    | 0 => none
+    | j+1 => if d[j]! < 9 then some ((d.extract 0 (j+1)).set! j (d[j]! + 1)) else go d j
+  match go a.d nd with
+  | some d => { d := d, dp := a.dp }
+  | none => { d := #[1], dp := a.dp + 1 }                -- 99…9 rounds up to 1 × 10^(dp+1)
+
+/-- strconv `decimal.Round` -/
+def roundDec (a : Dec) (nd : Nat) : Dec :=
+  if nd ≥ a.d.size then a else if shouldRoundUp a nd then roundUp a nd else roundDown a nd
+
+/-- strconv `roundShortest`: `d` is the exact decimal of mant · 2^exp; shorten it to the fewest
+    digits that still lie strictly (or inclusively, for even mant) between the neighbours' midpoints -/
+def roundShortest (d : Dec) (mant : Nat) (exp : Int) : Dec :=
+  if mant == 0 then { d := #[], dp := 0 } else
+  let upper := Dec.trim (decOf (mant * 2 + 1) (exp - 1))
+  let (mantlo, explo) :=
+    if mant > 2^52 || exp == -1074 then (mant - 1, exp) else (mant * 2 - 1, exp - 1)
+  let lower := Dec.trim (decOf (mantlo * 2 + 1) (explo - 1))
+  let inclusive := mant % 2 == 0
+  let rec loop (ui : Nat) (upperdelta : Nat) : Nat → Dec
+    | 0 => d
+    | fuel+1 =>
+      let mi : Int := (ui : Int) - upper.dp + d.dp
+      if mi ≥ (d.d.size : Int) then d else
+      let li : Int := (ui : Int) - upper.dp + lower.dp
+      let l := if li ≥ 0 && li < lower.d.size then lower.d[li.toNat]! else 0
+      let m := if mi ≥ 0 then d.d[mi.toNat]! else 0
+      let u := if ui < upper.d.size then upper.d[ui]! else 0
+      let upperdelta :=
+        if upperdelta == 0 && m + 1 < u then 2
+        else if upperdelta == 0 && m != u then 1
+        else if upperdelta == 1 && (m != 9 || u != 0) then 2
+        else upperdelta
+      let okdown := l != m || (inclusive && li + 1 == (lower.d.size : Int))
+      let okup := upperdelta > 0 && (inclusive || upperdelta > 1 || ui + 1 < upper.d.size)
+      if okdown && okup then roundDec d (mi + 1).toNat
+      else if okdown then roundDown d (mi + 1).toNat
+      else if okup then roundUp d (mi + 1).toNat
+      else loop (ui + 1) upperdelta fuel
+  loop 0 0 800
+
+/-- shortest round-tripping digits of a finite x (sign ignored) -/
+def shortest (x : F64) : Dec := roundShortest (Dec.trim (decOf x.mant x.exp)) x.mant x.exp
+
+/-! ## strconv.FormatFloat -/
+
+def ascii (s : List Char) : Bytes := s.map (fun c => c.toNat.toUInt8)
+def digitBytes (ds : List Nat) : Bytes := ds.map (fun n => (n + 48).toUInt8)
+
+/-- strconv `fmtF` (%f) with shortest precision: ddd.ddd -/
+def fmtF (a : Dec) : Bytes :=
+  let ds := digitBytes a.d.toList
+  if a.dp > 0 then
+    let ip := a.dp.toNat
+    ds.take ip ++ List.replicate (ip - ds.length) 48 ++ (if ds.length > ip then 46 :: ds.drop ip else [])
+  else if ds.isEmpty then [48]
+  else [48, 46] ++ List.replicate (-a.dp).toNat 48 ++ ds
+
+/-- strconv `fmtE` (%e) with shortest precision: d.ddde±dd -/
+def fmtE (a : Dec) : Bytes :=
+  let e : Int := if a.d.size == 0 then 0 else a.dp - 1
+  let n := e.natAbs
+  let expDigits := if n < 10 then [0, n] else if n < 100 then [n / 10, n % 10] else [n / 100, n / 10 % 10, n % 10]
+  (match digitBytes a.d.toList with
+   | [] => [48]
+   | [d] => [d]
+   | d :: rest => d :: 46 :: rest)
+  ++ [101, if e < 0 then 45 else 43] ++ digitBytes expDigits
+
+def signPrefix (x : F64) : Bytes := if x.signBit then [45] else []
+
+/-- strconv.FormatFloat(x, 'f', -1, 64) -/
 def format (x : F64) : Bytes :=
-  -- stub: integers only
-  let f := x.toF
-  if f == f.floor && f.abs < 1e15 then
-    let n := f.toInt64.toInt
-    (if n < 0 then [45] else []) ++ natToBytes n.natAbs
-  else (toString f).toUTF8.toList
-inductive ParseRes | ok (x : F64) | range | syntax
-def parseFull (s : Bytes) : ParseRes :=
-  -- stub: digits(.digits)?
-  let rec go : Bytes → Nat → Option Nat
-    | [], acc => some acc
-    | c :: cs, acc => if isDigitB c then go cs (acc * 10 + (c.toNat - 48)) else none
+  if x.isNaN then ascii ['N', 'a', 'N']
+  else if x.isInf then ascii [if x.signBit then '-' else '+', 'I', 'n', 'f']
+  else signPrefix x ++ fmtF (shortest x)
+
+/-- encoding/json `floatEncoder.encode` for float64 -/
+def jsonFormat (x : F64) : Option Bytes :=
+  if x.isNaN || x.isInf then none else
+  let abs := ofMag false x.mag
+  -- abs != 0 && (abs < 1e-6 || abs >= 1e21)
+  if !x.isZero && (lt abs ⟨0x3EB0C6F7A0B5ED8D⟩ || le ⟨0x444B1AE4D6E2EF50⟩ abs) then
+    let b := signPrefix x ++ fmtE (shortest x)
+    match b.reverse with                                    -- clean up e-09 to e-9
+    | l :: 48 :: 45 :: 101 :: rest => some (l :: 45 :: 101 :: rest).reverse
+    | _ => some b
+  else some (format x)
+
+/-! ## strconv.ParseFloat (strconv/atof.go), on character codes -/
+
+inductive ParseRes
+  | ok (x : F64)
+  | range
+  | syntax
+  deriving DecidableEq, Repr
+
+/-- character code -/
+abbrev ch (c : Char) : Nat := c.toNat
+/-- strconv `lower`: ASCII lower-casing by setting bit 5 -/
+def lower (c : Nat) : Nat := c ||| 32
+def isDigit (c : Nat) : Bool := ch '0' ≤ c && c ≤ ch '9'
+def isHexLetter (c : Nat) : Bool := ch 'a' ≤ lower c && lower c ≤ ch 'f'
+
+/-- strconv `commonPrefixLenIgnoreCase` -/
+def commonPrefixLenIgnoreCase : List Nat → List Char → Nat
+  | c :: cs, p :: ps =>
+    let c := if ch 'A' ≤ c && c ≤ ch 'Z' then c + 32 else c
+    if c == ch p then commonPrefixLenIgnoreCase cs ps + 1 else 0
+  | _, _ => 0
+
+/-- strconv `special`: (value, length of the matched prefix) for inf / infinity / nan -/
+def special (s : List Nat) : Option (F64 × Nat) :=
+  let infinity (t : List Nat) (neg : Bool) (nsign : Nat) : Option (F64 × Nat) :=
+    let n := commonPrefixLenIgnoreCase t ['i', 'n', 'f', 'i', 'n', 'i', 't', 'y']
+    let n := if 3 < n && n < 8 then 3 else n
+    if n == 3 || n == 8 then some (inf neg, nsign + n) else none
   match s with
-  | [] => .syntax
-  | _ =>
-    let (neg, s) := match s with | 45 :: r => (true, r) | _ => (false, s)
-    let ip := s.takeWhile isDigitB
-    let rest := s.drop ip.length
-    match rest with
-    | [] => match go ip 0 with
-      | some n => if ip.isEmpty then .syntax else .ok (let v := ofNat n; if neg then v.neg else v)
-      | none => .syntax
-    | 46 :: fs =>
-      match go ip 0, go fs 0 with
-      | some a, some b =>
-        let v := ofF (Float.ofNat a + Float.ofNat b / Float.ofNat (10 ^ fs.length))
-        .ok (if neg then v.neg else v)
-      | _, _ => .syntax
-    | _ => .syntax
-def parse (s : Bytes) : Option F64 := match parseFull s with | .ok x => some x | _ => none
-def jsonFormat (x : F64) : Option Bytes := if x.isNaN || x.isInf then none else some (format x)
+  | [] => none
+  | c :: cs =>
+    if c == ch '+' || c == ch '-' then infinity cs (c == ch '-') 1   -- a sign is never followed by nan
+    else if c == ch 'i' || c == ch 'I' then infinity s false 0
+    else if (c == ch 'n' || c == ch 'N') && commonPrefixLenIgnoreCase s ['n', 'a', 'n'] == 3 then some (nan, 3)
+    else none
+
+/-- strconv `underscoreOK`: underscores only between digits or after the base prefix -/
+def underscoreOK (s : List Nat) : Bool :=
+  let s := match s with
+    | c :: cs => if c == ch '-' || c == ch '+' then cs else s
+    | [] => s
+  let rec go (hex : Bool) : List Nat → Nat → Bool       -- second argument: class of the last char seen
+    | [], saw => saw != ch '_'
+    | c :: cs, saw =>
+      if isDigit c || (hex && isHexLetter c) then go hex cs (ch '0')
+      else if c == ch '_' then (if saw != ch '0' then false else go hex cs (ch '_'))
+      else if saw == ch '_' then false
+      else go hex cs (ch '!')
+  match s with
+  | 48 :: c :: cs =>
+    if lower c == ch 'b' || lower c == ch 'o' || lower c == ch 'x' then go (lower c == ch 'x') cs (ch '0')
+    else go false s (ch '^')
+  | _ => go false s (ch '^')
+
+/-- state of the mantissa loop of strconv `readFloat` (all digits are kept: no truncation) -/
+structure Mant where
+  mant : Nat := 0            -- the digits after the leading zeros, as an integer
+  nd : Nat := 0              -- how many of them
+  dp : Int := 0              -- position of the point relative to the first of them
+  sawdot : Bool := false
+  sawdigits : Bool := false
+  underscores : Bool := false
+
+def digitVal (base c : Nat) : Option Nat :=
+  if isDigit c then some (c - 48)
+  else if base == 16 && isHexLetter c then some (lower c - 87)
+  else none
+
+/-- mantissa loop of `readFloat`; returns the unread rest -/
+def readDigits (base : Nat) : List Nat → Mant → Mant × List Nat
+  | [], m => (m, [])
+  | c :: cs, m =>
+    if c == ch '_' then readDigits base cs { m with underscores := true }
+    else if c == ch '.' then
+      if m.sawdot then (m, c :: cs) else readDigits base cs { m with sawdot := true, dp := m.nd }
+    else match digitVal base c with
+      | none => (m, c :: cs)
+      | some v =>
+        if v == 0 && m.nd == 0 then                           -- ignore leading zeros
+          readDigits base cs { m with sawdigits := true, dp := m.dp - 1 }
+        else readDigits base cs { m with sawdigits := true, nd := m.nd + 1, mant := m.mant * base + v }
+
+/-- exponent digit loop of `readFloat`; like Go it stops accumulating once e ≥ 10000 -/
+def readExpDigits : List Nat → Nat → Bool → Nat × Bool × List Nat
+  | [], e, us => (e, us, [])
+  | c :: cs, e, us =>
+    if c == ch '_' then readExpDigits cs e true
+    else if isDigit c then readExpDigits cs (if e < 10000 then e * 10 + (c - 48) else e) us
+    else (e, us, c :: cs)
+
+/-- after 'e' / 'p': optional sign and at least one digit; gives (exponent, saw '_', rest) -/
+def readExp (s : List Nat) : Option (Int × Bool × List Nat) :=
+  let (neg, s) := match s with
+    | c :: cs => if c == ch '+' then (false, cs) else if c == ch '-' then (true, cs) else (false, s)
+    | [] => (false, s)
+  match s with
+  | c :: _ =>
+    if isDigit c then
+      let (e, us, rest) := readExpDigits s 0 false
+      some (if neg then -(e : Int) else e, us, rest)
+    else none
+  | [] => none
+
+/-- what strconv `readFloat` extracts from a well-formed number: ±0.d₀d₁… × base^dp × (2 or 10)^e -/
+structure Scan where
+  neg : Bool
+  hex : Bool
+  mant : Nat                 -- all nd significant digits as an integer
+  nd : Nat
+  dp : Int
+  e : Int
+
+/-- strconv `readFloat` applied to the whole string; `none` = syntax error -/
+def readFloat (s : List Nat) : Option Scan :=
+  let (neg, t) := match s with
+    | c :: cs => if c == ch '+' then (false, cs) else if c == ch '-' then (true, cs) else (false, s)
+    | [] => (false, s)
+  let (hex, t) := match t with
+    | 48 :: x :: c :: cs => if lower x == ch 'x' then (true, c :: cs) else (false, t)
+    | _ => (false, t)
+  let (m, t) := readDigits (if hex then 16 else 10) t {}
+  if !m.sawdigits then none else
+  let exponent : Option (Int × Bool × List Nat) :=
+    match t with
+    | c :: cs =>
+      if lower c == (if hex then ch 'p' else ch 'e') then readExp cs
+      else if hex then none else some (0, false, t)          -- a hex float must have an exponent
+    | [] => if hex then none else some (0, false, [])
+  match exponent with
+  | none => none
+  | some (e, us, rest) =>
+    -- ParseFloat: anything left unread is a syntax error
+    if !rest.isEmpty || ((m.underscores || us) && !underscoreOK s) then none
+    else some { neg, hex, mant := m.mant, nd := m.nd, dp := if m.sawdot then m.dp else m.nd, e }
+
+/-- magnitude bits of the correctly rounded value: what `atofHex` / `decimal.floatBits` and Go's
+    fast paths (`atof64exact`, Eisel-Lemire) compute, done here with exact arithmetic -/
+def Scan.mag (sc : Scan) : Nat :=
+  if sc.hex then roundMag sc.mant 1 (4 * (sc.dp - sc.nd) + sc.e)   -- mant · 16^(dp-nd) · 2^e
+  else
+    let dp := sc.dp + sc.e
+    if sc.mant == 0 then 0
+    else if dp > 310 then infMag                               -- `floatBits`: obvious overflow
+    else if dp < -330 then 0                                   -- obvious underflow
+    else
+      let p := dp - sc.nd                                      -- value = mant · 10^p = mant · 5^p · 2^p
+      if p ≥ 0 then roundMag (sc.mant * 5^p.toNat) 1 p else roundMag sc.mant (5^(-p).toNat) p
+
+/-- strconv.ParseFloat(s, 64) -/
+def parseFull (s : Bytes) : ParseRes :=
+  let s := s.map UInt8.toNat
+  match special s with
+  | some (v, n) => if n == s.length then .ok v else .syntax
+  | none =>
+    match readFloat s with
+    | none => .syntax
+    | some sc => if sc.mag ≥ infMag then .range else .ok (ofMag sc.neg sc.mag)
+
+/-- KNOWN DEVIATION FROM GO.  `parseFull` is correctly rounded for every input.  Go is not when a decimal
+    has more than 800 significant digits before the point (or no point): if its fast paths fail,
+    `decimal.set` caps the digit count *and with it the point position* at 800, so the result is off
+    by a power of ten.  `parseFull s` equals strconv.ParseFloat whenever `goParseExact s` holds. -/
+def goParseExact (s : Bytes) : Bool :=
+  match readFloat (s.map UInt8.toNat) with
+  | some sc => sc.hex || sc.dp ≤ 800
+  | none => true
+
+def parse (s : Bytes) : Option F64 :=
+  match parseFull s with
+  | .ok x => some x
+  | _ => none
+
 end F64
+
+/-! ## Kernel-checked sanity examples (every definition above reduces by `decide`) -/
+section Examples
+open F64
+
+example : add one one = ofNat 2 := by decide
+example : div one (ofNat 3) = ⟨0x3FD5555555555555⟩ := by decide +kernel
+example : add ⟨0x3FB999999999999A⟩ ⟨0x3FC999999999999A⟩ = ⟨0x3FD3333333333334⟩ := by decide +kernel      -- 0.1 + 0.2
+example : sub one one = zero ∧ add (neg zero) (neg zero) = neg zero ∧ add (neg zero) zero = zero := by decide +kernel
+example : (mul (inf false) zero).isNaN ∧ div one zero = inf false ∧ div (neg one) zero = inf true
+    ∧ (div zero zero).isNaN ∧ (sub (inf true) (inf true)).isNaN := by decide +kernel
+example : lt (neg zero) zero = false ∧ eq (neg zero) zero ∧ eq nan nan = false ∧ le one (ofNat 2) := by decide +kernel
+example : ofInt (2^53 + 1) = ofInt (2^53) ∧ ofInt (-(2^53 + 3)) = ofInt (-(2^53 + 4)) := by decide +kernel
+example : toGoInt (ofInt (-7)) = -7 ∧ toGoInt nan = -2^63 ∧ toGoInt (ofNat (2^63)) = -2^63
+    ∧ toGoInt ⟨0xC00C000000000000⟩ = -3 := by decide +kernel                                               -- int(-3.5)
+example : floor ⟨0xBFE0000000000000⟩ = neg one ∧ ceil ⟨0xBFE0000000000000⟩ = neg zero
+    ∧ round ⟨0xBFE0000000000000⟩ = neg one := by decide +kernel                                            -- -0.5
+example : format (ofNat 2) = ascii ['2'] ∧ format (neg zero) = ascii ['-', '0']
+    ∧ format nan = ascii ['N', 'a', 'N'] := by decide +kernel
+example : format ⟨0x3FB999999999999A⟩ = ascii ['0', '.', '1'] := by decide
+example : format ⟨0x3FD3333333333334⟩ = ascii "0.30000000000000004".toList := by decide +kernel
+example : format (ofNat (2^53 + 2)) = ascii "9007199254740994".toList := by decide +kernel
+example : parse (ascii ['0', '.', '1']) = some ⟨0x3FB999999999999A⟩ := by decide +kernel
+example : parseFull (ascii "1.7976931348623157e308".toList) = .ok ⟨0x7FEFFFFFFFFFFFFF⟩
+    ∧ parseFull (ascii "1e309".toList) = .range ∧ parseFull (ascii "2.4703282292062327e-324".toList) = .ok zero
+    ∧ parseFull (ascii "0x1p-2".toList) = .ok ⟨0x3FD0000000000000⟩ := by decide +kernel
+example : parseFull (ascii "1_0".toList) = .ok (ofNat 10) ∧ parseFull (ascii "+nan".toList) = .syntax
+    ∧ parseFull (ascii "-INF".toList) = .ok (inf true) ∧ parseFull (ascii "0x1".toList) = .syntax
+    ∧ parseFull (ascii " 1".toList) = .syntax := by decide +kernel
+example : jsonFormat ⟨0x444B1AE4D6E2EF50⟩ = some (ascii "1e+21".toList)
+    ∧ jsonFormat ⟨0x3E7AD7F29ABCAF48⟩ = some (ascii "1e-7".toList)
+    ∧ jsonFormat ⟨0x3EB0C6F7A0B5ED8D⟩ = some (ascii "0.000001".toList) ∧ jsonFormat nan = none := by decide +kernel
+
+end Examples
+
 end Jqawk
